@@ -455,7 +455,7 @@ def make_plan(seed, tier='quick'):
         rng.shuffle(perm)                    # the scheduled child runs the calls in another order
     cfg = {'quantum': rng.choice([3, 10, 30, 30, 100, 100, 300, 300, 1000, 3000]),
            'warm': versions if warm else [], 'first': rng.randrange(nthreads), 'sequential': sequential, 'perm': perm,
-           'rounds': 1 if sequential else rng.choice([1, 2, 3, 4])}
+           'rounds': 1 if sequential else rng.choice([1, 1, 2, 3])}
     return {'sim': 'threadsim', 'seed': seed, 'config': cfg, 'threads': threads, 'switches': [], 'more': []}
 
 
